@@ -62,7 +62,7 @@ func genC07(r *sim.Rand, tier string) *sim.Program {
 				p.Add("smallc1", lay, r.PickInt(17883, 60190, 84295, 126495, 173403, 193197, 252436, 302857)).WithB(r.Bytes(msgLen()))
 			case 11:
 				// the same algorithms over another curve (sm2_legacy.go): round trip and tamper checks only
-				p.Add("legacy", r.Intn(4), r.Intn(5), r.Intn(1<<30)).WithB(r.Bytes(r.PickInt(1, 32, 33, 100)))
+				p.Add("legacy", r.Intn(4), r.Intn(5), r.Intn(1<<30), r.PickInt(0, 0, 1)).WithB(r.Bytes(r.PickInt(1, 32, 33, 100)))
 			default:
 				p.Add("enc", lay, r.Intn(1<<30)).WithB(r.Bytes(msgLen()))
 			}
@@ -291,6 +291,19 @@ func execC07(t *testing.T, p *sim.Program, c *sim.Ctx) {
 			for j := range kb {
 				if j%bl == 0 {
 					kb[j] = 0 // every scripted block is below the group order
+				}
+			}
+			if op.Int(3)&1 == 1 {
+				// constructive: the message equals the mask of the first scripted scalar, so that C2 is all zero - a
+				// legitimate output of the algorithm on this curve too
+				kx := new(big.Int).SetBytes(kb[:bl])
+				if kx.Sign() > 0 && kx.Cmp(cv.Params().N) < 0 {
+					x2, y2 := cv.ScalarMult(lp.X, lp.Y, kx.Bytes())
+					z := append(x2.FillBytes(make([]byte, bl)), y2.FillBytes(make([]byte, bl))...)
+					if mask := sm3m.KDF(z, len(msg)); !bytes.Equal(mask, make([]byte, len(mask))) {
+						msg = mask
+						c.Hit("probe:legacy-all-zero-c2")
+					}
 				}
 			}
 			ct, err := sm2.Encrypt(&sim.ScriptReader{Data: kb, Fill: 1, Step: 0}, &lp.PublicKey, msg, c07Opts(lay))
